@@ -403,4 +403,9 @@ example : (run exCfg init (sequential exCfg 2)).log =
     [.up 0, .before 0 0, .task 0, .after 0 0, .before 0 1, .task 1, .after 0 1, .up 1, .down 0, .down 1] := by
   decide
 
+-- the hypotheses of `C14_finish_runs_down` hold after the three runs: every run is over, context 0 is in use
+example : quiescent exCfg (run exCfg init ((sequential exCfg 2).take 21)) = true ∧
+    (run exCfg init ((sequential exCfg 2).take 21)).used 0 = true ∧
+    (run exCfg init ((sequential exCfg 2).take 21)).downDone 0 = false := by decide
+
 end Hooks
